@@ -64,6 +64,9 @@ type c16hAttempt struct {
 	restart bool
 	stage   byte
 	node    *verr.Node // nil: accepted
+	// stage n only: statuses reported for the recipient BEFORE the last one (node), in order; a nil
+	// entry is a success status (what a pipeline fanning the recipient out to several targets does)
+	pre []*verr.Node
 }
 
 type c16hCase struct {
@@ -82,7 +85,15 @@ func (c *c16hCase) op() string {
 		if a.node == nil {
 			s += "ok"
 		} else {
-			s += string([]byte{a.stage}) + " " + a.node.String()
+			s += string([]byte{a.stage})
+			for _, p := range a.pre {
+				if p == nil {
+					s += " ok +"
+				} else {
+					s += " " + p.String() + " +"
+				}
+			}
+			s += " " + a.node.String()
 		}
 		segs = append(segs, s)
 	}
@@ -109,7 +120,21 @@ func c16hParse(op string) *c16hCase {
 		}
 		if cur[0] != "ok" {
 			a.stage = cur[0][0]
-			a.node, _ = verr.Parse(cur[1:])
+			var piece []string
+			for _, tk := range cur[1:] {
+				if tk != "+" {
+					piece = append(piece, tk)
+					continue
+				}
+				if len(piece) == 1 && piece[0] == "ok" {
+					a.pre = append(a.pre, nil)
+				} else {
+					n, _ := verr.Parse(piece)
+					a.pre = append(a.pre, n)
+				}
+				piece = nil
+			}
+			a.node, _ = verr.Parse(piece)
 		}
 		c.atts = append(c.atts, a)
 		cur = nil
@@ -213,6 +238,13 @@ func (d *c16hDelivery) Body(ctx context.Context, header textproto.Header, body b
 }
 
 func (d *c16hPartial) BodyNonAtomic(ctx context.Context, sc module.StatusCollector, header textproto.Header, body buffer.Buffer) {
+	for _, p := range d.att.pre {
+		if p == nil {
+			sc.SetStatus(c16hRcpt, nil)
+		} else {
+			sc.SetStatus(c16hRcpt, p.Build())
+		}
+	}
 	sc.SetStatus(c16hRcpt, d.att.node.Build())
 }
 
@@ -522,6 +554,28 @@ func c16hRunCase(out *vh.Out, op string) {
 			continue
 		}
 		out.Stat("qhist.stage." + string([]byte{att.stage}))
+		if att.stage == 'n' {
+			out.Stat(fmt.Sprintf("qhist.statuses-for-the-recipient.%d", len(att.pre)+1))
+			if len(att.pre) > 0 {
+				kk := ""
+				for _, p := range append(append([]*verr.Node{}, att.pre...), att.node) {
+					switch t, known := false, false; {
+					case p == nil:
+						kk += "o"
+					default:
+						t, known = verr.TempOf(p)
+						if !known {
+							kk += "u"
+						} else if t {
+							kk += "t"
+						} else {
+							kk += "p"
+						}
+					}
+				}
+				out.Stat("qhist.status-order." + kk)
+			}
+		}
 		if !verr.WellFormed(att.node) {
 			out.Stat("qhist.outcome.malformed-error")
 			continue
@@ -749,6 +803,15 @@ func c16hGenAttempt(r *vh.Rng, first bool) c16hAttempt {
 		a.node = verr.Gen(r, r.Intn(4), r.Chance(75))
 		c16hSetMsgs(r, a.node)
 	}
+	if a.node != nil && a.stage == 'n' && r.Chance(50) {
+		for k := 1 + r.Intn(2); k > 0; k-- {
+			if r.Chance(15) {
+				a.pre = append(a.pre, nil)
+			} else {
+				a.pre = append(a.pre, c16hClassNode(r, r.Intn(5)))
+			}
+		}
+	}
 	return a
 }
 
@@ -797,6 +860,30 @@ func c16hSystematic(r *vh.Rng) []string {
 			ops = append(ops, c.op())
 			i++
 		}
+	}
+	// several statuses for the recipient within ONE attempt: every ordered pair of the five classes
+	// (and a success status before / between), as the first attempt and after a temporary one, with
+	// tries left and on the last try; triples of the three temporariness classes
+	for a := 0; a < 5; a++ {
+		for b := 0; b < 5; b++ {
+			for v := 0; v < 3; v++ {
+				c := &c16hCase{maxTries: 2 + v%2, utf8: (a+b+v)%2 == 0}
+				if v == 2 {
+					c.atts = append(c.atts, c16hAttempt{stage: "srbnc"[(a+b)%5], node: c16hClassNode(r, a%2)})
+				}
+				att := c16hAttempt{stage: 'n', restart: v == 2 && b%2 == 0, pre: []*verr.Node{c16hClassNode(r, a)}, node: c16hClassNode(r, b)}
+				if (a+b)%4 == 3 {
+					att.pre = append(att.pre, nil)
+				}
+				c.atts = append(c.atts, att)
+				ops = append(ops, c.op())
+			}
+		}
+	}
+	for _, tr := range [][3]int{{1, 3, 3}, {3, 1, 3}, {1, 1, 3}, {3, 3, 1}, {0, 2, 4}, {4, 0, 2}, {0, 4, 2}, {2, 0, 0}} {
+		c := &c16hCase{maxTries: 3, utf8: tr[0] == 0}
+		c.atts = append(c.atts, c16hAttempt{stage: 'n', pre: []*verr.Node{c16hClassNode(r, tr[0]), c16hClassNode(r, tr[1])}, node: c16hClassNode(r, tr[2])})
+		ops = append(ops, c.op())
 	}
 	return ops
 }
